@@ -8,6 +8,7 @@ code compiled from the tree, bit for bit:
 plus (iv) complete runs of the real MTest (prepare, Newton with Lagrange multipliers, convergence test,
 sub-stepping) on a mock behaviour, on which the property's own predicate is evaluated at every requested time.
 """
+import json
 import math
 import os
 import random
@@ -504,7 +505,7 @@ def run(ck):
             for line in open(os.path.join(cdir, fn)):
                 line = line.strip()
                 if line and not line.startswith("#"):
-                    reqs.append({"kind": "corpus", "line": line})
+                    reqs.append(json.loads(line))      # a request with all the fields of a generated one
     reqs += gen_lines(rng, 1500 if q else 40000, 300 if q else 5000, 4000 if q else 150000, 2000 if q else 60000)
     mts = [gen_mt(rng) for _ in range(300 if q else 6000)]
     text = "".join(r["line"] + "\n" for r in reqs)
